@@ -16,6 +16,14 @@ RULE = ("binary trees on 4..12 tips (thorough: up to 24), unrooted (root of degr
         "proposal object inside the callback with a dump after every operation; kept-object cases only collect the proposal "
         "objects in the callback and use them after Rearrange has returned, in enumeration order, in a shuffled order, and in "
         "order then shuffled again (every object used twice), with A U or A U A U; non-trivial = at least one proposal; "
+        "re-entrant cases start, from inside the callback of proposal i (first, second, middle, last; applied), a second "
+        "enumeration with the SAME rearranger value on another tree (smaller, equal, larger) or on the same tree object (the "
+        "2-step neighbourhood); shared cases give ONE rearranger value to 2-4 goroutines that enumerate different trees (equal "
+        "sizes, mixed sizes) concurrently, the enumerations forced to overlap (barrier in the first callback, yield in every "
+        "callback); every enumeration is judged on its own by the same oracle and model; CLI stream (extra): `gotree nni -i f "
+        "-o out` on small, 16-24-tip and 60-70-tip trees and a two-tree file (outputs below 4096, above 4096 and above 65536 "
+        "bytes): the output file must hold, line by line, the neighbours that the judged worker run of the same tree produced, "
+        "and equal the run writing to stdout; "
         "multifurcating trees (outside the property: correspondence and the per-proposal clauses only, tag nonbinary); "
         "distinct = distinct case text")
 TRUSTED = ["tree built through NewNode/NewEdge + verif hooks (exact neighbour order); dump through Neigh()/Edges()/Left()/Right() "
@@ -161,6 +169,39 @@ def gen(rng, tier):
         else:
             ts = [rnd_tree() for _ in range(rng.choice([2, 3]))]
         add_seq(ts, "sequence")
+    # one rearranger value used by two overlapping enumerations: re-entrant (from the callback) and shared by goroutines
+    def nprops(t):
+        return 2 * sum(1 for x in preorder(t) if len(x["slots"]) == 3 for _, c in kids(x) if len(c["slots"]) == 3)
+    def seq_meta(ts, src, **kw):
+        metas = [meta_of(t, src) for t in ts]
+        m = {"src": src, "ntrees": len(ts), "ntips": max(x["ntips"] for x in metas), "rooted": any(x["rooted"] for x in metas),
+             "root_inner_kids_seq": [x["root_inner_kids"] for x in metas]}
+        m.update(kw)
+        return m
+    nnest = {"quick": 36, "thorough": 600, "search": 80}[tier]
+    for i in range(nnest):
+        t = rnd_tree(rng.randint(5, 11))
+        n = nprops(t)
+        if n == 0:
+            continue
+        at = [0, 1, n // 2, n - 1][i % 4] % n
+        style = (i // 4) % 4
+        if style == 3:      # the same tree object: the neighbourhood of the neighbour
+            out.append({"sx": sx({"tree": T(t), "at": at}), "meta": seq_meta([t, t], "reentrant", at=at, other="same")})
+        else:
+            k = len(leaves(t))
+            t2 = rnd_tree([max(4, k - 3), k, k + 3][style])
+            out.append({"sx": sx({"tree": T(t), "at": at, "nested": T(t2)}),
+                        "meta": seq_meta([t, t2], "reentrant", at=at, other=["smaller", "equal", "larger"][style])})
+    npar = {"quick": 36, "thorough": 600, "search": 80}[tier]
+    for i in range(npar):
+        k = rng.choice([2, 2, 3, 4])
+        if i % 2 == 0:
+            n = rng.randint(6, 12)
+            ts = [rnd_tree(n) for _ in range(k)]
+        else:
+            ts = [rnd_tree(rng.randint(5, 12)) for _ in range(k)]
+        out.append({"sx": sx({"par": [T(t) for t in ts]}), "meta": seq_meta(ts, "shared", goroutines=k)})
     # operations on the proposal objects (the applied flag), inside the callback and on kept objects
     OPS = ["AUAU", "AAU", "AUU", "UAU", "AUAAUU", "AAUAU", "UUAAUU", "AU"]
     K = 64
@@ -186,3 +227,77 @@ def gen(rng, tier):
         add_ops(t, None, sh, "kept")
         add_ops(t, rng.choice(["AUAU", "AAUU", "UAUAU"]), ident + sh, "kept")
     return out
+
+
+# ---------------------------------------------------------------- CLI stream: gotree nni -o <file>
+import os, random
+import cli
+
+def extra(tier, seed, st):
+    """`gotree nni -i in.nw -o out.nw`: the output FILE must hold exactly the neighbours, one per line, that the worker run
+    of the same tree (judged by the extracted oracle and against the model) produced, and equal the run that writes to stdout."""
+    rng = random.Random(seed + 1717)
+    fails = []
+    info = {"evaluations": 0, "distinct_nontrivial": 0, "cli_output_bytes": []}
+    ok, err = cli.build_gotree()
+    if not ok:
+        return [("build", "gotree no longer builds: " + err[-500:], None)], info
+    d = cli.scratch("c17x-")
+    g = Gen(rng)
+    def tree_for_cli(ntips, rooted):
+        # parent slot first, no comments / names on inner nodes: the structure the Newick parser builds
+        sh = binary_shape(rng, ["t%d" % i for i in range(ntips)], 2 if rooted else 3)
+        return g.decorate(sh, lenmode="all", supmode="all", inner_names=False, comments=False, up_random=False)
+    sizes = [(4, False), (5, True), (8, False), (12, True), (rng.randint(16, 24), False), (rng.randint(16, 24), True),
+             (rng.randint(60, 70), False)]
+    if tier != "quick":
+        sizes += [(rng.randint(4, 30), rng.random() < 0.4) for _ in range(12)] + [(rng.randint(60, 80), True)]
+    groups = [[tree_for_cli(n, r)] for n, r in sizes]
+    groups.append([tree_for_cli(9, False), tree_for_cli(7, True)])        # a two-tree input file
+    try:
+        for gi, ts in enumerate(groups):
+            text = "".join(newick(t) + "\n" for t in ts)
+            body = {"input": text, "cmd": "gotree nni -i in.nw -o out.nw", "ntips": [len(leaves(t)) for t in ts]}
+            label = "nni -o (%s tips)" % "+".join(str(len(leaves(t))) for t in ts)
+            # expected lines: the judged worker run of each tree
+            cases = [sx({"tree": T(t)}) for t in ts]
+            res, werr = run_pipeline(PROP, cases)
+            expected = []
+            bad = None
+            for t, (kind, fields, obs) in zip(ts, res):
+                c = {"kind": kind, "fields": fields, "meta": meta_of(t, "cli")}
+                if kind != "OK" and not _root_branch(c):
+                    bad = "%s %s" % (kind, (fields or [""])[0][:300])
+                    break
+                o = alist(parse_sexp(obs))
+                expected += [alist(p)["nw"] for p in o["props"]]
+            info["evaluations"] += 1
+            if bad:
+                fails.append((label, "the library run of the CLI input tree is not accepted: " + bad, body)); continue
+            open(os.path.join(d, "in.nw"), "w").write(text)
+            out = os.path.join(d, "out.nw")
+            if os.path.exists(out):
+                os.remove(out)
+            rc, so, se = cli.run(["nni", "-i", "in.nw", "-o", "out.nw"], d)
+            rc2, so2, se2 = cli.run(["nni", "-i", "in.nw"], d)
+            if rc != 0 or rc2 != 0 or b"panic" in se or b"panic" in se2:
+                fails.append((label, "`gotree nni` failed (rc=%d/%d): %s" % (rc, rc2, (se or se2)[:200]), body)); continue
+            got = open(out, "rb").read().decode("utf-8", "replace") if os.path.exists(out) else None
+            std = so2.decode("utf-8", "replace")
+            want = "".join(x + "\n" for x in expected)
+            info["cli_output_bytes"].append(len(want))
+            if std != want:
+                fails.append((label, "`gotree nni -i in.nw` (stdout): %d lines instead of the %d neighbours of the library run, or different text"
+                              % (std.count("\n"), len(expected)), body)); continue
+            if got is None:
+                fails.append((label, "`gotree nni -i in.nw -o out.nw` wrote no output file (%d neighbours expected)" % len(expected), body)); continue
+            if got != want:
+                fails.append((label, "`gotree nni -i in.nw -o out.nw`: the output file holds %d bytes / %d complete lines instead of %d bytes / %d "
+                              "neighbours (stdout of the same command without -o is complete)" %
+                              (len(got), got.count("\n"), len(want), len(expected)), body)); continue
+            if expected:
+                info["distinct_nontrivial"] += 1
+    finally:
+        import shutil
+        shutil.rmtree(d, ignore_errors=True)
+    return fails, info
